@@ -16,7 +16,7 @@ func init() {
 
 func parallelEngine(c *Ctx) *Engine {
 	for _, e := range Engines(c.P) {
-		if e.Update != nil && len(spawnSites(e.Fn)) >= 2 {
+		if e.Update != nil && e.Parallel {
 			return e
 		}
 	}
